@@ -10,6 +10,7 @@
    PROVED here, for every value the optimiser may return ([opt] is universally quantified):
    rigidity, de-flip decisions, "zero residual <=> aligned", exactness and uniqueness GIVEN a zero-residual
    answer, uniform scaling and correctness of both scale factors, inputs unchanged (heap model).
+   The tie of the model functions to the CURRENT sources (generated code = model) is C16/GenProperty.v.
    NOT PROVED: that scipy's least_squares reaches the zero residual within its evaluation budget
    (C16_full's convergence clause) — validated by sampling against ground truth (harness/props/c16.py). *)
 From Coq Require Import ZArith List Reals.
@@ -18,8 +19,6 @@ From CF Require Import C16.Proofs.
 From CF Require Import C16.Proofs_unique.
 From CF Require Import C16.Heap.
 From CF Require Import C16.Heap_proofs.
-From CF Require Import C16.Gen_Code.
-From CF Require Import C16.Gen_Tie.
 Import ListNotations.
 Open Scope R_scope.
 
@@ -160,19 +159,3 @@ Theorem C16_inputs_unchanged_align : forall (A : Type) (h : heap A) r t,
   (wf h -> wf h' /\ forall p, (p < length (objs h))%nat -> deref h' p = deref h p).
 Proof. exact new_pose_spec. Qed.
 Print Assumptions C16_inputs_unchanged_align.
-
-(* Tie to the current sources: the functions the translator generated from cflib/localization/*.py on THIS run
-   (C16/Gen_Code.v) are equal to the model functions used in all theorems above. *)
-Theorem C16_generated_code_is_model :
-  (forall T p, gen_rotate_translate Rops T p = rt Rops T p) /\
-  (forall T P, gen_rotate_translate_pose Rops T P = rtp Rops T P) /\
-  (forall P s, gen_scale Rops P s = pscale Rops P s) /\
-  (forall raw x_axis bs, gen_de_flip Rops raw x_axis bs = deflip Rops raw x_axis bs) /\
-  (forall T origin x_axis plane, gen_residual Rops T origin x_axis plane = residual Rops T origin x_axis plane) /\
-  (forall T bs, gen_align_loop Rops T bs = align_apply Rops T bs) /\
-  (forall c bs cf, gen_calc_intersection_point Rops c bs cf = intersection_point Rops c bs cf) /\
-  (forall bs cf s, gen_scale_system Rops bs cf s = scale_system Rops bs cf s) /\
-  (forall c1 c2 bs cf, gen_calc_intersection_distance c1 c2 bs cf = intersection_distance c1 c2 bs cf) /\
-  (forall bs cf e a, gen_scale_fixed_point bs cf e a = scale_fixed_point bs cf e a).
-Proof. exact generated_code_is_model. Qed.
-Print Assumptions C16_generated_code_is_model.
